@@ -96,30 +96,45 @@ fn d<T>(r: Result<T, serde_json::Error>, f: impl Fn(&T) -> String) -> String {
     }
 }
 
+/// the roads a JSON text can take into serde: 0 = `from_str`, 1 = parsed to a `Value` first, 2 = from a
+/// reader, 3 = `from_str` of the same document with every string character written as a \uXXXX escape
+fn road<T: serde::de::DeserializeOwned>(text: &str, route: u8) -> Result<T, serde_json::Error> {
+    match route {
+        0 => serde_json::from_str(text),
+        1 => serde_json::from_str::<serde_json::Value>(text).and_then(serde_json::from_value),
+        2 => serde_json::from_reader(std::io::Cursor::new(text.as_bytes())),
+        _ => serde_json::from_str(&escape_strings(text)),
+    }
+}
+
 /// `serde_json::from_str` outcome in canonical form (or PANIC)
 pub fn dec_by_type(ty: &str, text: &str) -> Option<String> {
+    dec_by_type_road(ty, text, 0)
+}
+
+pub fn dec_by_type_road(ty: &str, text: &str, route: u8) -> Option<String> {
     let r = catch_unwind(AssertUnwindSafe(|| -> Option<String> {
         Some(match ty {
-            "order" => d(serde_json::from_str::<Order>(text), show_order),
-            "update" => d(serde_json::from_str::<OrderUpdate>(text), show_upd),
-            "id" => d(serde_json::from_str::<OrderId>(text), show_id),
-            "side" => d(serde_json::from_str::<Side>(text), |s| show_side(*s).to_string()),
-            "tif" => d(serde_json::from_str::<TimeInForce>(text), |t| show_tif(*t)),
-            "peg" => d(serde_json::from_str::<PegReferenceType>(text), |p| show_peg(*p).to_string()),
-            "tx" => d(serde_json::from_str::<Transaction>(text), show_txrec),
-            "mr" => d(serde_json::from_str::<MatchResult>(text), show_mr),
-            "stats" => d(serde_json::from_str::<PriceLevelStatistics>(text), |s| {
+            "order" => d(road::<Order>(text, route), show_order),
+            "update" => d(road::<OrderUpdate>(text, route), show_upd),
+            "id" => d(road::<OrderId>(text, route), show_id),
+            "side" => d(road::<Side>(text, route), |s| show_side(*s).to_string()),
+            "tif" => d(road::<TimeInForce>(text, route), |t| show_tif(*t)),
+            "peg" => d(road::<PegReferenceType>(text, route), |p| show_peg(*p).to_string()),
+            "tx" => d(road::<Transaction>(text, route), show_txrec),
+            "mr" => d(road::<MatchResult>(text, route), show_mr),
+            "stats" => d(road::<PriceLevelStatistics>(text, route), |s| {
                 format!("{},{},{},{},{},{},{},{}", s.orders_added.verif_raw(), s.orders_removed.verif_raw(), s.orders_executed.verif_raw(),
                     s.quantity_executed.verif_raw(), s.value_executed.verif_raw(), s.last_execution_time.verif_raw(),
                     s.first_arrival_time.verif_raw(), s.sum_waiting_time.verif_raw())
             }),
-            "snapj" => d(serde_json::from_str::<PriceLevelSnapshot>(text), show_snap),
-            "leveldata" => d(serde_json::from_str::<PriceLevel>(text), |l| {
+            "snapj" => d(road::<PriceLevelSnapshot>(text, route), show_snap),
+            "leveldata" => d(road::<PriceLevel>(text, route), |l| {
                 let mut v: Vec<Order> = l.iter_orders().iter().map(|a| **a).collect();
                 canon_sort(&mut v);
                 format!("{},{},{},{};{}", l.price(), l.visible_quantity(), l.hidden_quantity(), l.order_count(), show_list(&v, show_order))
             }),
-            "pkg" => d(serde_json::from_str::<PriceLevelSnapshotPackage>(text), |p| format!("{}#{}#{}", p.version, show_snap(&p.snapshot), p.checksum)),
+            "pkg" => d(road::<PriceLevelSnapshotPackage>(text, route), |p| format!("{}#{}#{}", p.version, show_snap(&p.snapshot), p.checksum)),
             _ => return None,
         })
     }));
@@ -271,7 +286,7 @@ pub fn leveldata_expect(v: &str) -> String {
 /// structural mutations of a JSON document, enumerated deterministically: every node (by JSON pointer)
 /// x {delete, null, boundary numbers, other strings, empty container}
 #[derive(Clone, Debug)]
-pub enum SMut { Delete, Null, Num(usize), Str(usize), Empty, Hoist }
+pub enum SMut { Delete, Null, Num(usize), Str(usize), Empty, Hoist, Wide(u32) }
 
 const SX_NUMS: [&str; 9] = ["0", "1", "9007199254740993", "9223372036854775808", "18446744073709551615", "1152921504606846976", "-1", "1e30", "0.5"];
 const SX_STRS: [&str; 3] = ["", "x", "BUY"];
@@ -298,9 +313,29 @@ fn sx_nodes(v: &serde_json::Value, path: &str, depth: usize, maxdepth: usize, ou
     }
 }
 
+/// every unsigned number n also becomes n + 2^k (k = 8, 16, 32, 63) where that still fits 64 bits:
+/// the values a narrowing read would confuse with n (listed after all other mutations)
+fn sx_wide(v: &serde_json::Value, path: &str, depth: usize, maxdepth: usize, out: &mut Vec<(String, SMut)>) {
+    use serde_json::Value;
+    if let Some(n) = v.as_u64() {
+        for k in [8u32, 16, 32, 63] {
+            if n.checked_add(1u64 << k).is_some() { out.push((path.to_string(), SMut::Wide(k))); }
+        }
+    }
+    if depth >= maxdepth { return; }
+    match v {
+        Value::Array(a) => for (i, x) in a.iter().enumerate() { sx_wide(x, &format!("{path}/{i}"), depth + 1, maxdepth, out); },
+        Value::Object(o) => for (k, x) in o.iter() { sx_wide(x, &format!("{path}/{k}"), depth + 1, maxdepth, out); },
+        _ => {}
+    }
+}
+
 pub fn sx_list(text: &str, maxdepth: usize) -> Vec<(String, SMut)> {
     let mut out = Vec::new();
-    if let Ok(v) = serde_json::from_str::<serde_json::Value>(text) { sx_nodes(&v, "", 0, maxdepth, &mut out); }
+    if let Ok(v) = serde_json::from_str::<serde_json::Value>(text) {
+        sx_nodes(&v, "", 0, maxdepth, &mut out);
+        sx_wide(&v, "", 0, maxdepth, &mut out);
+    }
     out
 }
 
@@ -320,6 +355,7 @@ fn sx_apply(v: &mut serde_json::Value, path: &str, m: &SMut) -> Option<()> {
         SMut::Null => *v.pointer_mut(path)? = Value::Null,
         SMut::Num(i) => *v.pointer_mut(path)? = serde_json::from_str(SX_NUMS[*i]).ok()?,
         SMut::Str(i) => *v.pointer_mut(path)? = Value::String(SX_STRS[*i].to_string()),
+        SMut::Wide(k) => { let n = v.pointer(path)?.as_u64()?; *v.pointer_mut(path)? = Value::from(n.checked_add(1u64 << k)?); }
         SMut::Empty => {
             let n = v.pointer_mut(path)?;
             *n = if n.is_array() { Value::Array(vec![]) } else { Value::Object(Default::default()) };
@@ -458,4 +494,34 @@ pub fn apply_fault(text: &str, kind: &str, args: &[&str]) -> Option<Vec<u8>> {
         }
         _ => None,
     }
+}
+
+/// The same JSON document with every character of every string (keys included) written as a
+/// `\uXXXX` escape; escapes already present are kept. No reader can hand out a borrowed string for it.
+pub fn escape_strings(text: &str) -> String {
+    let mut out = String::with_capacity(text.len() * 4);
+    let mut in_str = false;
+    let mut it = text.chars();
+    while let Some(c) = it.next() {
+        if !in_str {
+            if c == '"' {
+                in_str = true;
+            }
+            out.push(c);
+        } else if c == '"' {
+            in_str = false;
+            out.push(c);
+        } else if c == '\\' {
+            out.push(c);
+            if let Some(e) = it.next() {
+                out.push(e);
+            }
+        } else {
+            let mut buf = [0u16; 2];
+            for u in c.encode_utf16(&mut buf) {
+                out.push_str(&format!("\\u{:04x}", u));
+            }
+        }
+    }
+    out
 }
